@@ -72,7 +72,7 @@ fn run_and_check_cuts(conv: &Conv, st: &mut Stats, expect_pkts: Option<(usize, u
     if !o.res.is_ok() {
         return Err(Violation::new("result-not-ok", format!("run_on returned {}", o.res.short())));
     }
-    let d = decode_all(&o.sim.out, conv, &s.last_seq, conv.cmds.len(), false).map_err(seq_violation)?;
+    let d = decode_all(delivered(&o), conv, &s.last_seq, conv.cmds.len(), false).map_err(seq_violation)?;
     st.transitions += d.n_pkts as u64;
     if let Some((k, n)) = expect_pkts {
         if d.reply_pkts[k] != n {
@@ -259,7 +259,7 @@ impl Family for LargeResponse {
         if !o.res.is_ok() {
             return Err(Violation::new("result-not-ok", format!("run_on returned {}", o.res.short())));
         }
-        let d = decode_all(&o.sim.out, &conv, &s.last_seq, 2, false).map_err(seq_violation)?;
+        let d = decode_all(delivered(&o), &conv, &s.last_seq, 2, false).map_err(seq_violation)?;
         st.transitions += d.n_pkts as u64;
         Ok(())
     }
@@ -306,7 +306,7 @@ impl Family for Bulky {
         if !o.res.is_ok() {
             return Err(Violation::new("result-not-ok", format!("run_on returned {}", o.res.short())));
         }
-        let d = decode_all(&o.sim.out, &conv, &s.last_seq, 2, false).map_err(seq_violation)?;
+        let d = decode_all(delivered(&o), &conv, &s.last_seq, 2, false).map_err(seq_violation)?;
         st.transitions += d.n_pkts as u64;
         Ok(())
     }
@@ -467,7 +467,7 @@ impl Family for OneShortWrite {
         }
         if o.sim.out != base.sim.out {
             // same bytes in the same order is what a short write must lead to
-            let d = decode_all(&o.sim.out, &conv, &last_seq, 2, false).map_err(|e| {
+            let d = decode_all(delivered(&o), &conv, &last_seq, 2, false).map_err(|e| {
                 let mut v = seq_violation(e);
                 v.msg = format!("{}: {}", what, v.msg);
                 v
